@@ -202,18 +202,48 @@ fn run(case: &Case, cx: &mut Cx) -> CaseResult {
     Ok(())
 }
 
+/// Scale probes (see probes.rs): the two-replay comparison on 10 015 hunks and multi-MiB blocks.
+fn enumerate(_tier: Tier, idx: u32, of: u32, cx: &mut Cx) -> CaseResult {
+    if !crate::probes::mine(idx, of) {
+        return Ok(());
+    }
+    for (name, (opts, tree)) in [
+        ("many-hunks", crate::probes::many_hunks_tree(10_012)),
+        ("big-blocks", crate::probes::big_blocks_tree()),
+    ] {
+        crate::engine::heartbeat();
+        let sub = cx.dir(name);
+        std::fs::create_dir_all(&sub).unwrap();
+        let mut cx2 = crate::engine::sub_cx(cx, sub.clone());
+        let case = Case {
+            hist: History { initial: tree, ops: vec![Op::Backup(opts)] },
+            workers: 4,
+            perturb: vec![3, 0, 1, 2, 0, 0, 1],
+            fail_block_removal: None,
+        };
+        run(&case, &mut cx2).map_err(|mut f| {
+            f.signature = format!("{}/probe-{name}", f.signature);
+            f
+        })?;
+        crate::engine::force_remove(&sub);
+        cx.add_evals(1);
+        cx.inner_nontrivial += 1;
+    }
+    Ok(())
+}
+
 pub fn prop() -> Prop<Case> {
     Prop {
         id: "C17",
         level: "exploration",
-        rule: "case = (history as C02 with <=10 ops quick / <=20 thorough, worker count in {1,2,4}, 0-23 perturbation bytes). Every step is applied to the one source and then to two fresh archives: A on a current-thread runtime with serialized storage operations, B on a multi-thread runtime with that many workers, storage operations not serialized (conserve's concurrent listing/validation tasks really overlap) and each preceded by a yield/sleep chosen by the perturbation bytes; interruptions are addressed by the ordinal of the mutating operation in both; in 30% of cases every delete/gc step additionally has one failing block removal, addressed by path (the i-th of the sorted blocks the delete is about to remove), identical in both replays. After every archive operation the two directories must have the same relative file set and byte-identical contents, except that start_time is removed from parsed BANDHEADs and end_time from parsed BANDTAILs. Non-trivial = >=2 backups, some band with >=2 hunks and some combined block; distinct by case hash; evaluations = archive-state comparisons",
+        rule: "case = (history as C02 with <=10 ops quick / <=20 thorough, worker count in {1,2,4}, 0-23 perturbation bytes). Every step is applied to the one source and then to two fresh archives: A on a current-thread runtime with serialized storage operations, B on a multi-thread runtime with that many workers, storage operations not serialized (conserve's concurrent listing/validation tasks really overlap) and each preceded by a yield/sleep chosen by the perturbation bytes; interruptions are addressed by the ordinal of the mutating operation in both; in 30% of cases every delete/gc step additionally has one failing block removal, addressed by path (the i-th of the sorted blocks the delete is about to remove), identical in both replays. After every archive operation the two directories must have the same relative file set and byte-identical contents, except that start_time is removed from parsed BANDHEADs and end_time from parsed BANDTAILs. Non-trivial = >=2 backups, some band with >=2 hunks and some combined block; distinct by case hash; evaluations = archive-state comparisons; plus two fixed scale probes (10 015 hunks; multi-MiB blocks)",
         assumptions: &[
             "evidence about independence from task scheduling (two runtime flavours + generated perturbations), not a proof over all schedules",
         ],
         cases: |t| t.pick(1000, 15_000),
         strategy,
         run,
-        enumerate: None,
+        enumerate: Some(enumerate),
         exhaustive: |_| false,
         max_shrink_iters: 500,
     }
